@@ -228,6 +228,41 @@ def build():
     from contracts import C07
     plan.ground.append(("created-objects-are-referenced", C07.build().created_objects_referenced))
 
+    def header_counts_written_only_by_their_setters():
+        """frame condition of the whole package: the stored numbers of header rows / columns are assigned only in the model's two accessor
+        methods (with the value the caller passes) - nothing on the save path recomputes, clamps or resets them"""
+        import ast as _ast
+        import glob as _glob
+        from pyvc import extract as _ex
+        allowed = {"number_of_header_rows": "num_header_rows", "number_of_header_columns": "num_header_cols"}
+        bad, n = [], 0
+        for f in sorted(_glob.glob(os.path.join(_ex.SRC, "*.py"))):
+            tree = _ast.parse(open(f).read())
+            for fn in [x for x in _ast.walk(tree) if isinstance(x, (_ast.FunctionDef, _ast.AsyncFunctionDef))]:
+                for node in _ast.walk(fn):
+                    targets = []
+                    if isinstance(node, _ast.Assign):
+                        targets = node.targets
+                    elif isinstance(node, (_ast.AugAssign, _ast.AnnAssign)):
+                        targets = [node.target]
+                    elif isinstance(node, _ast.Call) and _ast.unparse(node.func) == "setattr" and len(node.args) >= 2 and isinstance(node.args[1], _ast.Constant):
+                        if node.args[1].value in allowed:
+                            n += 1
+                            bad.append(f"{os.path.basename(f)}:{fn.name} L{node.lineno}: setattr(..., {node.args[1].value!r}, ...)")
+                        continue
+                    for t in targets:
+                        for a in [x for x in _ast.walk(t) if isinstance(x, _ast.Attribute) and x.attr in allowed]:
+                            n += 1
+                            ok = fn.name == allowed[a.attr] and isinstance(node, _ast.Assign) and isinstance(node.value, _ast.Name) \
+                                and node.value.id in [p.arg for p in fn.args.args]
+                            if not ok:
+                                bad.append(f"{os.path.basename(f)}:{fn.name} L{node.lineno}: `{_ast.unparse(node)[:90]}` changes the stored {a.attr} outside "
+                                           f"its setter: a count the user set can differ after save and reopen")
+        if n < 2:
+            return False, "anchor lost: the setters of the header counts were not found", n
+        return (not bad), (bad[:3] or "header counts are stored only by num_header_rows / num_header_cols, with the caller's value"), n
+    plan.ground.append(("header-counts-written-only-by-their-setters", header_counts_written_only_by_their_setters))
+
     plan.bounded.append(BoundedStandIn(
         "geometry-cycles", "c16_geometry.py", [], thorough_args=["--level", "2"], timeout=1500,
         bound="the 40 smallest fixtures (thorough: every fixture) x {geometry queried, nothing queried before saving} x 2 (thorough 3) save/reopen "
